@@ -423,6 +423,9 @@ func (env *specEnv) evalBinary(x *SBinary) TV {
 		l := env.eval(x.L)
 		r := env.eval(x.R)
 		l, r = numUnify(l, r)
+		if l.Sort == "Real" {
+			return TV{T: fcmp(env.u(), x.Op, l.T, r.T), Sort: "Bool"}
+		}
 		return TV{T: app(x.Op, l.T, r.T), Sort: "Bool"}
 	case "+", "-", "*":
 		l := env.eval(x.L)
